@@ -460,6 +460,15 @@ def c_backend_rule(ck, mod, ks, label):
 
     def handler(ex, p, I, callee, args):
         raise Broken("%s calls %s: unrecognised shape" % (fname, callee))
+    # the state is whatever object the caller has: its type (words of 32 bits; the public wrappers 64-bit aligned) promises no more than
+    # 8-byte alignment.  An access that claims more (an aligned 128-bit move of the four state words) does not map every state to the
+    # specified one - for a state at 8 mod 16 it is undefined and faults
+    over = [I for I in f.insts if I.op in ("load", "store") and (I.get("align") or 1) > 8 and ir.ptr_base(f, I.ops[0] if I.op == "load" else I.ops[1])[0] == ("a", 0)]
+    for I in over:
+        ck.bad("R-C05-EFFECT", fname, "state-access-alignment#%s[%s]" % (I.id, label), "%s of %d bytes of the state claims %d-byte alignment; the state's type guarantees at most 8: states the caller "
+               "may legitimately pass (at an address that is 8 modulo 16) are not mapped to the specified state but fault" % (I.op, I.get("size"), I.get("align")), where=relpath(I.where))
+    if over:
+        return 1
     ex = irx.Exec(f, handler)
     paths = ex.run()
     if len(f.loops) != 1:
